@@ -220,6 +220,10 @@ def _alloc_stmt(draw, mems, dyn_ok=False, main=1):
     a = dict(op="alloc", mem=mem, elt=draw(st.sampled_from(["i8", "i8", "i32"])), rank2=draw(st.sampled_from([0, 0, 2, 3, 4])),
              aty=draw(st.sampled_from(["i64", "i64", "i32"])))
     a.update(draw(_size_spec(mems[mem]["cap"])))
+    if "fill" not in a:
+        # layout of the allocated memref: 0 = none, g > 0 = tiled-strided with every step multiplied by 1 + g (gaps), optional offset
+        a["lay"] = draw(st.sampled_from([0, 0, 0, 0, 1, 2]))
+        a["loff"] = draw(st.sampled_from([0, 0, 3]))
     a["align"] = draw(st.sampled_from(_ALIGN_POOL if mems[mem]["cap"] >= 1000 else _ALIGN_POOL_SMALL))
     if dyn_ok and draw(st.sampled_from([True, False, False])):
         a["dynsize"] = True
@@ -283,7 +287,11 @@ def place_case(draw, tier="quick"):
     for _ in range(draw(st.integers(0, 3))):
         stmts.append(dict(op="use", refs=[[draw(st.sampled_from([1, 1, 0])), draw(st.integers(0, 11))]]))
     ret = draw(_REF) if draw(st.sampled_from([True] + [False] * 7)) else None
-    return dict(mode=mode, mems=mems, stmts=stmts, ret=ret)
+    out = dict(mode=mode, mems=mems, stmts=stmts, ret=ret)
+    if not dyn_ok and draw(st.sampled_from([True] + [False] * 5)):
+        # the allocs are written as memref.alloc and go through memref-to-snax + canonicalize first (the order snaxc uses)
+        out["front"] = True
+    return out
 
 
 def align_up(x: int, a) -> int:
@@ -317,6 +325,7 @@ class PlaceBuilt:
         self.text = ""
         self.bufs = []  # dict(k, mem (name), size|None, align (int|None), stmt, dyn)
         self.n_stmts = 0
+        self.stmts = []  # the statements really emitted (front mode may append uses)
         self.access = []  # per top-level stmt: set of roots accessed by an opaque op (through any alias)
         self.touch_views = []  # per stmt: roots with an operand occurrence of the root or of a view-derived value (no region results)
         self.touch_direct = []  # per stmt: roots whose own cast value is an operand of some op
@@ -327,6 +336,7 @@ class PlaceBuilt:
 
 def build_place(r) -> PlaceBuilt:
     out = PlaceBuilt()
+    front = bool(r.get("front"))
     mems = {m["name"]: m for m in r["mems"]}
     mem_names = [m["name"] for m in r["mems"]]
     L: list[str] = []
@@ -473,16 +483,34 @@ def build_place(r) -> PlaceBuilt:
 
     top: list[_Val] = []
     pad = "    "
-    for t, s in enumerate(r["stmts"]):
+    stmts = list(r["stmts"])
+    t = -1
+    while t + 1 < len(stmts) or front:
+        if t + 1 >= len(stmts):
+            # front mode: canonicalize erases a buffer nothing accesses (and then the pass under test sees an alloc without
+            # cast); give every such buffer one direct use at the end
+            accessed = set().union(*out.access) if out.access else set()
+            missing = [b["k"] for b in out.bufs if b["k"] not in accessed]
+            if not missing:
+                break
+            stmts.append(dict(op="use", refs=[[2, missing[0]]]))
+        t += 1
+        s = stmts[t]
         cur = dict(access=set(), views=set(), direct=set())
         tag = f"{{c11.stmt = {t} : i64}} "
         op = s["op"]
         if op == "alloc":
             k = len(out.bufs)
             mem = mem_names[s["mem"] % len(mem_names)]
-            m = mems[mem]
             align = s.get("align")
             dyn = bool(s.get("dynsize"))
+            if front:
+                # memref-to-snax converts L1 allocs only; memref.alloc wants a positive power of two (or no) alignment
+                mem = "L1"
+                dyn = False
+                if not align or align & (align - 1):
+                    align = None
+            m = mems[mem]
             if "fill" in s:
                 size = max(1, m["start"] + m["cap"] - align_up(bump[mem], align) + s["fill"])
                 out.features.add("size:fill%+d" % s["fill"])
@@ -496,6 +524,14 @@ def build_place(r) -> PlaceBuilt:
             f = s.get("rank2", 0)
             if f and n % f == 0 and n // f >= 1:
                 shape = [f, n // f]
+            strides = [1] * len(shape)
+            for d in range(len(shape) - 2, -1, -1):
+                strides[d] = strides[d + 1] * shape[d + 1]
+            lay = None
+            if s.get("lay") and "fill" not in s and not dyn:
+                lay = dict(dims=[[[st_ * (1 + s["lay"]), e]] for st_, e in zip(strides, shape)], offset=s.get("loff", 0))
+                size = (int(G.all_addrs(lay).max()) + 1) * ELSIZE[elt]  # bytes the layout can touch (reference)
+                out.features.add("alloc:tsl-layout")
             # static bump simulation (reference for the documented "memory full" refusal)
             if static_full[0] is None and not dyn:
                 a0 = align_up(bump[mem], align)
@@ -504,26 +540,29 @@ def build_place(r) -> PlaceBuilt:
                 else:
                     static_addr[k] = a0
                     bump[mem] = a0 + size
-            shp = []
-            for d, e in enumerate(shape):
-                L.append(f'{pad}%sh{k}_{d} = "arith.constant"() <{{value = {e} : index}}> : () -> index')
-                shp.append(f"%sh{k}_{d}")
-            if dyn:
-                L.append(f'{pad}%sz{k} = "test.op"() : () -> index')
+            ty = memref_type(elt, shape, tsl_text(lay) if lay else None, mem)
+            if front:
+                props = ["operandSegmentSizes = array<i32: 0, 0>"]
+                if align is not None:
+                    props.insert(0, f"alignment = {align} : i64")
+                L.append(f'{pad}%m{k} = "memref.alloc"() <{{{", ".join(props)}}}> : () -> {ty}')
             else:
-                L.append(f'{pad}%sz{k} = "arith.constant"() <{{value = {size} : index}}> : () -> index')
-            props = [f'memory_space = "{mem}"']
-            if align is not None:
-                props.append(f"alignment = {align} : {s.get('aty', 'i64')}")
-            sty = struct_type(len(shape))
-            L.append(f'{pad}%a{k} = "snax.alloc"({", ".join([f"%sz{k}"] + shp)}) <{{{", ".join(props)}}}> : '
-                     f'({", ".join(["index"] * (1 + len(shp)))}) -> {sty}')
-            strides = [1] * len(shape)
-            for d in range(len(shape) - 2, -1, -1):
-                strides[d] = strides[d + 1] * shape[d + 1]
-            ty = memref_type(elt, shape, None, mem)
-            L.append(f'{pad}%m{k} = "builtin.unrealized_conversion_cast"(%a{k}) {{c11.buf = {k} : i64}} : ({sty}) -> {ty}')
-            top.append(_Val(name=f"%m{k}", ty=ty, elt=elt, shape=shape, strides=strides, offset=0, space=mem,
+                shp = []
+                for d, e in enumerate(shape):
+                    L.append(f'{pad}%sh{k}_{d} = "arith.constant"() <{{value = {e} : index}}> : () -> index')
+                    shp.append(f"%sh{k}_{d}")
+                if dyn:
+                    L.append(f'{pad}%sz{k} = "test.op"() : () -> index')
+                else:
+                    L.append(f'{pad}%sz{k} = "arith.constant"() <{{value = {size} : index}}> : () -> index')
+                props = [f'memory_space = "{mem}"']
+                if align is not None:
+                    props.append(f"alignment = {align} : {s.get('aty', 'i64')}")
+                sty = struct_type(len(shape))
+                L.append(f'{pad}%a{k} = "snax.alloc"({", ".join([f"%sz{k}"] + shp)}) <{{{", ".join(props)}}}> : '
+                         f'({", ".join(["index"] * (1 + len(shp)))}) -> {sty}')
+                L.append(f'{pad}%m{k} = "builtin.unrealized_conversion_cast"(%a{k}) {{c11.buf = {k} : i64}} : ({sty}) -> {ty}')
+            top.append(_Val(name=f"%m{k}", ty=ty, elt=elt, shape=shape, strides=None if lay else strides, offset=0, space=mem,
                             roots=frozenset([k]), is_root=True, plain=True, depth=0))
             out.bufs.append(dict(k=k, mem=mem, size=None if dyn else size, align=align, stmt=t, dyn=dyn, rank=len(shape), shape=shape))
             cur["direct"].add(k)
@@ -565,7 +604,8 @@ def build_place(r) -> PlaceBuilt:
     out.access.append(cur["access"])
     out.touch_views.append(cur["views"])
     out.touch_direct.append(cur["direct"])
-    out.n_stmts = len(r["stmts"])
+    out.n_stmts = len(stmts)
+    out.stmts = stmts
     lines = ['"builtin.module"() ({', f'  "func.func"() <{{sym_name = "f", function_type = {fty}}}> ({{']
     lines += L
     lines += ["  }) : () -> ()", "}) : () -> ()"]
